@@ -47,7 +47,8 @@ REQUIRED_COUNTERS = (['obs:jacvec-duality', 'obs:apply_linear-duality', 'obs:sol
                       'obs:subgroup-operators', 'obs:repeated-src_indices-model', 'obs:matfree-model',
                       'obs:assembled-model', 'obs:scaled-model-total-operator',
                       'obs:component-operators', 'obs:external-input-seeds', 'obs:jacvec-no-relinearize',
-                      'obs:other-root-reached', 'obs:history-steps-judged'] +
+                      'obs:other-root-reached', 'obs:history-steps-judged', 'obs:repeated-seed-vectors',
+                      'obs:rhs_checking-model'] +
                      ['move:G:' + m for m in K2.MOVES_G] + ['move:stock:' + m for m in K2.MOVES_STOCK] +
                      ['class:' + c for c in sorted(set(K2.CLASS_OF.values()))])
 ASSUMPTIONS = ['linear solves are judged only when no linear solver reported non-convergence',
@@ -84,9 +85,18 @@ def _groups(model):
 # ----------------------------------------------------------------------------------------------------------
 # the oracle: dot-product identities
 # ----------------------------------------------------------------------------------------------------------
-def _judge_total(probs, of_names, wrt_names, of_shapes, wrt_shapes, nr, fmon, acc, bad, step, linearize=True):
-    v = [nr.uniform(-1, 1, s) for s in wrt_shapes]
-    w_ = [nr.uniform(-1, 1, s) for s in of_shapes]
+def _judge_total(probs, of_names, wrt_names, of_shapes, wrt_shapes, nr, fmon, acc, bad, step, linearize=True,
+                 memo=None):
+    # memo: the seed vectors of the first call are used again at every later step (a linear-solution cache that
+    # is keyed on the right-hand side, e.g. rhs_checking, then meets the SAME right-hand side at a moved point)
+    if memo is not None and 'total' in memo:
+        v, w_ = memo['total']
+        acc.count('obs:repeated-seed-vectors')
+    else:
+        v = [nr.uniform(-1, 1, s) for s in wrt_shapes]
+        w_ = [nr.uniform(-1, 1, s) for s in of_shapes]
+        if memo is not None:
+            memo['total'] = (v, w_)
     fmon.clear()
     jv = probs['fwd'].compute_jacvec_product(of_names, wrt_names, 'fwd', v, linearize=linearize)
     vj = probs['rev'].compute_jacvec_product(of_names, wrt_names, 'rev', w_, linearize=linearize)
@@ -110,8 +120,8 @@ def _judge_total(probs, of_names, wrt_names, of_shapes, wrt_shapes, nr, fmon, ac
         bad.append(('jacvec' if linearize else 'jacvec-linearize=False', None, step, abs(lhs - rhs), tol))
 
 
-def _judge_systems(systems, nr, fmon, acc, bad, step, reps):
-    """systems: list of (system, label, scope, mask of external inputs or None)."""
+def _judge_systems(systems, nr, fmon, acc, bad, step, reps, memo=None):
+    """systems: list of (system, label, scope, mask of external inputs or None); memo: see _judge_total."""
     for g, label, scope, ext in systems:
         # a parent's DirectSolver does not linearize the linear solvers below it: linearize the
         # system itself before driving its own solve_linear
@@ -121,10 +131,15 @@ def _judge_systems(systems, nr, fmon, acc, bad, step, reps):
         if n == 0:
             continue
         ne = int(ext.sum()) if ext is not None else 0
-        for _ in range(reps):
-            v = nr.uniform(-1, 1, n)
-            w = nr.uniform(-1, 1, n)
-            vi = nr.uniform(-1, 1, ne)
+        for rep in range(reps):
+            if memo is not None and rep == 0 and g.pathname in memo:
+                v, w, vi = memo[g.pathname]
+            else:
+                v = nr.uniform(-1, 1, n)
+                w = nr.uniform(-1, 1, n)
+                vi = nr.uniform(-1, 1, ne)
+                if memo is not None and rep == 0:
+                    memo[g.pathname] = (v, w, vi)
             # apply_linear: (d_inputs fed from outside, d_outputs) -> d_residuals and back
             di.asarray()[:] = 0.0
             if ne:
@@ -193,7 +208,11 @@ def run_case(case, acc):
     from omv.ref.flatmodel import FlatModel
     rng = random.Random(case['seed'])
     scaled = case['seed'] % 3 == 0
-    spec = G.gen_spec(rng, dict(OPTS, p_scaling=0.6) if scaled else dict(OPTS))
+    opts = dict(OPTS, p_scaling=0.6) if scaled else dict(OPTS)
+    cached = case['seed'] % 4 == 1
+    if cached:
+        opts['p_rhs_checking'] = 0.8        # DirectSolver / ScipyKrylov cache reverse-mode solutions by right-hand side
+    spec = G.gen_spec(rng, opts)
     feats = spec_features(spec)
     if scaled:
         feats = feats + ['solver-scaling']
@@ -247,6 +266,7 @@ def run_case(case, acc):
             acc.skip('nonlinear-solver-nonconvergence')
             return
         bad = []
+        memo = {}
         step = 'initial'
         try:
             p = probs['rev']
@@ -267,17 +287,17 @@ def run_case(case, acc):
                         break
                     acc.count('move:G:' + move)
                 # ---- total operator -----------------------------------------------------------------
-                for _ in range(2 if k == 0 else 1):
+                for rep in range(2 if k == 0 else 1):
                     _judge_total(probs, of_names, wrt_names, of_shapes, wrt_shapes, nr if k == 0 else hnr, fmon, acc,
-                                 bad, step)
+                                 bad, step, memo=memo if rep == 0 else None)
                 if move == 'relin':
                     _judge_total(probs, of_names, wrt_names, of_shapes, wrt_shapes, hnr, fmon, acc, bad, step,
-                                 linearize=False)
+                                 linearize=False, memo=memo)
                 # ---- group operators (rev-mode problem has both transfer directions) -------------------
                 p.model.run_linearize()
                 if scaled and k == 0:
                     acc.count('obs:scaled-model-total-operator')
-                _judge_systems(systems, nr if k == 0 else hnr, fmon, acc, bad, step, 2 if k == 0 else 1)
+                _judge_systems(systems, nr if k == 0 else hnr, fmon, acc, bad, step, 2 if k == 0 else 1, memo=memo)
                 if k > 0:
                     acc.count('obs:history-steps-judged')
                 steps_done = k
@@ -294,6 +314,8 @@ def run_case(case, acc):
         acc.count('obs:matfree-model')
     if 'assembled' in feats:
         acc.count('obs:assembled-model')
+    if cached and 'rhs_checking' in repr(spec['tree']):
+        acc.count('obs:rhs_checking-model')
     if bad:
         first = True
         seen = set()
@@ -313,6 +335,15 @@ def run_case(case, acc):
 # ----------------------------------------------------------------------------------------------------------
 # family stock
 # ----------------------------------------------------------------------------------------------------------
+OWN_LINEAR_CODE = ['JaxExplicitComponent/matrix_free', 'JaxImplicitComponent/matrix_free',
+                   'ImplicitFuncComp/solve_linear', 'LinearSystemComp']
+
+
+def _suspects(classes):
+    """classes a whole-model failure (an exception) is named after: those with own linear code, else all."""
+    return '+'.join([c for c in classes if c in OWN_LINEAR_CODE] or classes)
+
+
 def _stock_systems(p, spec, info):
     """every group and every component (but the IndepVarComp) of the rev-mode problem."""
     import openmdao.api as om
@@ -338,7 +369,8 @@ def _stock_systems(p, spec, info):
 
 def run_stock_case(case, acc):
     rng = random.Random(case['seed'] + 104729)
-    lead = K2.KINDS[case['seed'] % len(K2.KINDS)]
+    # coverage grid: shard i, case k -> kind 3 i + k (every class leads a model in every 4 shards)
+    lead = K2.KINDS[(case['seed'] // 1000 * 3 + case['seed'] % 1000) % len(K2.KINDS)]
     spec = K2.gen_stock_spec(rng, lead)
     nr = np.random.default_rng(case['seed'] + 104729)
     classes = K2.stock_classes(spec)
@@ -353,7 +385,7 @@ def run_stock_case(case, acc):
                 p.run_model()
                 probs[mode], infos[mode] = p, info
         except Exception as e:
-            acc.viol('stock:%s:with=%s' % (exc_key('setup-or-run', e), '+'.join(classes)),
+            acc.viol('stock:%s:with=%s' % (exc_key('setup-or-run', e), _suspects(classes)),
                      '%s: %s' % (type(e).__name__, str(e)[:200]), case)
             for p in probs.values():
                 p.cleanup()
@@ -368,6 +400,7 @@ def run_stock_case(case, acc):
         state_shapes = {st: (n,) for st, _, _ in info['states']}
         indep_shapes = {w: (n,) for w in wrt_names}
         bad = []
+        memo = {}
         step = 'initial'
         steps_done = 0
         try:
@@ -395,19 +428,20 @@ def run_stock_case(case, acc):
                         acc.count('skipped:history-nonfinite-state')
                         break
                     acc.count('move:stock:' + move)
-                for _ in range(2 if k == 0 else 1):
-                    _judge_total(probs, of_names, wrt_names, [(n,)], [(n,), (n,)], nr, fmon, acc, bad, step)
+                for rep in range(2 if k == 0 else 1):
+                    _judge_total(probs, of_names, wrt_names, [(n,)], [(n,), (n,)], nr, fmon, acc, bad, step,
+                                 memo=memo if rep == 0 else None)
                 if move == 'relin':
                     _judge_total(probs, of_names, wrt_names, [(n,)], [(n,), (n,)], nr, fmon, acc, bad, step,
-                                 linearize=False)
+                                 linearize=False, memo=memo)
                 p.model.run_linearize()
-                _judge_systems(systems, nr, fmon, acc, bad, step, 2 if k == 0 else 1)
+                _judge_systems(systems, nr, fmon, acc, bad, step, 2 if k == 0 else 1, memo=memo)
                 if k > 0:
                     acc.count('obs:history-steps-judged')
                 steps_done = k
         except Exception as e:
             what = 'linear-operator-api' if step == 'initial' else 'linear-operator-api@' + step
-            acc.viol('stock:%s:with=%s' % (exc_key(what, e), '+'.join(classes)),
+            acc.viol('stock:%s:with=%s' % (exc_key(what, e), _suspects(classes)),
                      '%s: %s' % (type(e).__name__, str(e)[:200]), case)
             return
         finally:
@@ -416,24 +450,38 @@ def run_stock_case(case, acc):
     for c in classes:
         acc.count('class:' + c)
     if bad:
-        # operators of a component name its class; operators of groups / totals name the classes whose own
-        # operators failed in this case (else all classes of the model)
-        culprits = sorted(set(sc for what, sc, _, _, _ in bad if what.startswith(('apply_linear:component',
-                                                                                  'solve_linear:component'))
-                              and sc in K2.CLASS_OF.values()))
+        # Mechanism keys.  A stock component whose OWN operator pair (run_apply_linear / run_solve_linear on the
+        # component) fails is the culprit: it is reported once, with the first operator and the first step that
+        # fail; the failures of the groups around it and of the total operator in the same case are its
+        # consequences (counted, not keyed).  Without such a culprit every failing operator is reported, named
+        # after the classes with own linear code in the model (else all classes).
+        comp_bad = [b for b in bad if b[0].split(':')[1:2] == ['component'] and b[1] in K2.CLASS_OF.values()]
         first = True
-        seen = set()
-        for what, scope, step, err, tol in bad:
-            comp_level = what.split(':')[1:2] == ['component']
-            who = scope if (comp_level and scope) else 'with=' + '+'.join(culprits or classes)
-            if (what, who) in seen:
-                continue
-            seen.add((what, who))
-            key = what if step == 'initial' else '%s@%s' % (what, step)
-            acc.viol('stock:not-adjoint:%s:%s' % (key, who),
-                     '%s (%s) after %s: |<w,Av> - <A^T w,v>| = %.3e > tol %.1e' % (what, who, step, err, tol),
-                     case, new_case=first)
-            first = False
+        if comp_bad:
+            seen = set()
+            for what, scope, step, err, tol in comp_bad:
+                if scope in seen:
+                    continue
+                seen.add(scope)
+                op = what.split(':')[0]
+                key = op if step == 'initial' else '%s@%s' % (op, step)
+                acc.viol('stock:not-adjoint:%s:%s' % (scope, key),
+                         '%s of %s after %s: |<w,Av> - <A^T w,v>| = %.3e > tol %.1e' % (what, scope, step, err, tol),
+                         case, new_case=first)
+                first = False
+            acc.count('obs:consequence-failures', len(bad) - len(comp_bad))
+        else:
+            who = '+'.join([c for c in classes if c in OWN_LINEAR_CODE] or classes)
+            seen = set()
+            for what, scope, step, err, tol in bad:
+                if what in seen:
+                    continue
+                seen.add(what)
+                key = what if step == 'initial' else '%s@%s' % (what, step)
+                acc.viol('stock:not-adjoint:with=%s:%s' % (who, key),
+                         '%s (model with %s) after %s: |<w,Av> - <A^T w,v>| = %.3e > tol %.1e'
+                         % (what, '+'.join(classes), step, err, tol), case, new_case=first)
+                first = False
     else:
         acc.ok(fingerprint([[b['kind'] for b in spec['blocks']], spec['cfg'], spec['root_ln'], spec.get('g_ln'),
                             [b.get('ln') for b in spec['blocks']]]), nontrivial=True,
